@@ -133,6 +133,8 @@ class RankEval:
             fn = chain(e.func) or ""
             if fn.startswith("torch."):
                 short = fn.split(".")[-1]
+                if short == "eye":
+                    return Val(2, data=True)  # an un-batched identity matrix: two trailing (matrix) dimensions, nothing in front
                 if short in UNARY and e.args:
                     return self.ev(e.args[0])
                 if short in ("matmul", "bmm", "mm") and len(e.args) == 2:
